@@ -47,9 +47,12 @@ structure HS where
   margin : Rat := BIG
   exact : Bool := true
   fuelOut : Bool := false
-  /-- model-side dynamic check (see `mergeLeftLoop`): a heap handed back a constraint that does not belong
-      to the block / is internal, or `findMinLM` one of another block.  Never observed; a run that sets
-      it is reported by the driver like a run that exhausts fuel. -/
+  /-- model-side dynamic check (see `mergeLeftLoop` / `mergeRightLoop`): a heap handed back a constraint
+      whose right (left) end is not in the block the heap belongs to.  The heap discipline of the code
+      excludes it; here it is checked, not proved.  Never observed; a run that sets it is reported by the
+      driver like a run that exhausts fuel.  (That the constraint is not internal, and that `findMinLM`
+      returns a constraint of its own block, ARE proved: Lemmas/VpscStatic `findMinIn_ext`,
+      `findMinOut_ext`, `findMinLM_blk`.) -/
   corrupt : Bool := false
   nInternal : Nat := 0       -- internal constraints dropped at a heap root
   nStale : Nat := 0          -- out-of-date constraints popped and re-inserted
@@ -291,8 +294,7 @@ def mergeLeftLoop : Nat → SSt → Nat → SSt
       let hs := q.1.noteCmp sl
       if sl < 0 then
         -- what the heap discipline of the code guarantees (checked here, not proved): `c` enters block `r`
-        -- from another block
-        if internal s.st c || blkOf s.st (s.st.cons[c]!).r != r then { s with hs := hs.bad }
+        if blkOf s.st (s.st.cons[c]!).r != r then { s with hs := hs.bad }
         else
           let p := mergeLeftStep { s with hs := hs } r c
           mergeLeftLoop fuel p.1 p.2
@@ -337,7 +339,7 @@ def mergeRightLoop : Nat → SSt → Nat → SSt
       let sl := rawSlack s.st c
       let hs := q.1.noteCmp sl
       if sl < 0 then
-        if internal s.st c || blkOf s.st (s.st.cons[c]!).l != l then { s with hs := hs.bad }
+        if blkOf s.st (s.st.cons[c]!).l != l then { s with hs := hs.bad }
         else
           let p := mergeRightStep { s with hs := hs } l c
           mergeRightLoop fuel p.1 p.2
@@ -455,9 +457,7 @@ def refineTry (s : SSt) (b : Nat) : SSt × Bool × Bool :=
   | some (ci, lmv, gap) =>
     let hs := s.hs.note (lmv - LAGRANGIAN_TOLERANCE)
     if lmv < LAGRANGIAN_TOLERANCE then
-      -- `findMinLM` only follows constraints of its own block (checked here, not proved)
-      if blkOf r.1 (r.1.cons[ci]!).l != b then ({ st := r.1, hs := hs.bad }, true, false)
-      else ((splitStatic { st := r.1, hs := hs.noteCmp gap } b ci).cleanup, true, true)
+      ((splitStatic { st := r.1, hs := hs.noteCmp gap } b ci).cleanup, true, true)
     else ({ st := r.1, hs := hs }, false, false)
 
 def refineScan (s : SSt) : List Nat → SSt × Bool
@@ -496,6 +496,18 @@ def partitionOf (st : St) : Array Nat :=
     let b := blkOf st i
     if i < rep[b]! then rep.set! b i else rep
   (Array.range n).map fun i => rep[blkOf st i]!
+
+/-- executable form of the hypotheses of `Props/C01Static.static_quiescent_is_optimum` on a final state:
+    (every block of `m_blocks` stationary: Σ dfdv/scale = 0, every constraint holds exactly,
+     no block has a split candidate below `tol`) -/
+def quiescentOk (st : St) (tol : Rat) : Bool × Bool × Bool :=
+  let stat := st.order.all fun b =>
+    ((List.range st.vars.size).filter (fun x => blkOf st x == b)).foldl
+      (fun acc x => acc + st.dfdv x / (st.vars[x]!).scale) 0 == 0
+  let feas := (List.range st.cons.size).all fun ci => decide (0 ≤ rawSlack st ci)
+  let lmOk := st.order.all fun b =>
+    match (st.findMinLM b).2 with | none => true | some (_, l, _) => decide (tol ≤ l)
+  (stat, feas, lmOk)
 
 /-- the block invariant as an executable predicate (evaluated by the driver on every final model
     state): active constraints join two variables of one block and are tight in offsets; every block of
